@@ -145,6 +145,78 @@ func probeManyVariables() string {
 	return ""
 }
 
+// probeReuse: using an instance does not change it - one tokenizer and one calculator are given expressions with sibling
+// multi-character symbols in turns and keep answering like new ones; a template object keeps ONE default variable per
+// name however the names are spelled in the templates it is given, and renders the same text every time
+func probeReuse() string {
+	tk := ctok.NewExpressionTokenizer()
+	calc := calculator.NewExpressionCalculator()
+	texts := []string{"a <= b", "a <> b", "a << 1", "a <= b", "a >= b", "a >> 1", "a >= b", "a <> b and a <= b", "a != b", "a <= b"}
+	for round := 0; round < 2; round++ {
+		for _, text := range texts {
+			var got, want []string
+			for _, t := range tk.TokenizeBuffer(text) {
+				got = append(got, t.Value())
+			}
+			for _, t := range ctok.NewExpressionTokenizer().TokenizeBuffer(text) {
+				want = append(want, t.Value())
+			}
+			if strings.Join(got, "|") != strings.Join(want, "|") {
+				return fmt.Sprintf("an expression tokenizer used before splits %s into %q, a new one into %q", sx.Quote(text), got, want)
+			}
+			vars := variables.NewVariableCollection()
+			vars.Add(variables.NewVariable("a", variants.VariantFromInteger(2)))
+			vars.Add(variables.NewVariable("b", variants.VariantFromInteger(2)))
+			fresh := calculator.NewExpressionCalculator()
+			e1, e2 := calc.SetExpression(text), fresh.SetExpression(text)
+			if (e1 == nil) != (e2 == nil) {
+				return fmt.Sprintf("a calculator used before and a new one disagree on accepting %s", sx.Quote(text))
+			}
+			if e1 == nil {
+				r1, x1 := calc.EvaluateUsingVariables(vars)
+				r2, x2 := fresh.EvaluateUsingVariables(vars)
+				if ok, why := sameResult(r1, x1, r2, x2); !ok {
+					return fmt.Sprintf("a calculator used before evaluates %s differently from a new one (a = b = 2): %s", sx.Quote(text), why)
+				}
+			}
+		}
+	}
+	for _, c := range []struct {
+		preset map[string]string
+		tpls   []string
+	}{
+		{map[string]string{"NAME": "", "Greeting": ""}, []string{"{{greeting}}, {{name}}!"}},
+		{nil, []string{"{{User}} {{#Flag}}x{{/Flag}}", "{{USER}} {{flag}}", "{{user}}{{^FLAG}}y{{/FLAG}}"}},
+	} {
+		t := mustache.NewMustacheTemplate()
+		if c.preset != nil {
+			t.SetDefaultVariables(c.preset)
+		}
+		for _, tpl := range c.tpls {
+			if err := t.SetTemplate(tpl); err != nil {
+				return "template " + sx.Quote(tpl) + " was rejected: " + err.Error()
+			}
+			seen := map[string]string{}
+			for k := range t.DefaultVariables() {
+				if other, dup := seen[strings.ToLower(k)]; dup {
+					return fmt.Sprintf("after SetTemplate(%s) the default variables hold both %q and %q for one name", sx.Quote(tpl), other, k)
+				}
+				seen[strings.ToLower(k)] = k
+			}
+		}
+		for k := range t.DefaultVariables() {
+			t.DefaultVariables()[k] = "v:" + strings.ToLower(k)
+		}
+		first, _ := t.Evaluate()
+		for i := 0; i < 60; i++ {
+			if again, _ := t.Evaluate(); again != first {
+				return fmt.Sprintf("the same template with the same default variables renders %s and then %s", sx.Quote(first), sx.Quote(again))
+			}
+		}
+	}
+	return ""
+}
+
 func valSXorNil(v *variants.Variant) sx.SX {
 	if v == nil {
 		return sx.L()
@@ -411,6 +483,9 @@ func runC19(in sx.SX) (sx.SX, string) {
 			}
 			if c19Isolation == "" {
 				c19Isolation = probeManyVariables()
+			}
+			if c19Isolation == "" {
+				c19Isolation = probeReuse()
 			}
 		})
 		if c19Isolation != "" && fail == "" {
